@@ -48,6 +48,8 @@ pub enum Kind {
     Cw20MigratedLate { by_spender: bool },
     /// the allowance listings after a subset of mutual grants was fully revoked (and some re-granted)
     Cw20Revoked { by_spender: bool },
+    /// the allowance listings after some mutual allowances were used up exactly by *From draws
+    Cw20Drawn { by_spender: bool },
     /// cw1-subkeys AllAllowances; pattern of expiring entries and the block of the query
     Cw1Allowances(ExpPattern, At),
     Cw1Permissions,
@@ -137,6 +139,8 @@ pub fn listings() -> Vec<Listing> {
         l("cw20-base/AllSpenderAllowances[after-late-migration-with-expired-allowances]", Cw20MigratedLate { by_spender: true }, "all_spender_allowances", "allowances", Some("owner"), "start_after", false, false, 0),
         l("cw20-base/AllAllowances[after-revocations]", Cw20Revoked { by_spender: false }, "all_allowances", "allowances", Some("spender"), "start_after", false, false, 0),
         l("cw20-base/AllSpenderAllowances[after-revocations]", Cw20Revoked { by_spender: true }, "all_spender_allowances", "allowances", Some("owner"), "start_after", false, false, 0),
+        l("cw20-base/AllAllowances[after-draws-to-zero]", Cw20Drawn { by_spender: false }, "all_allowances", "allowances", Some("spender"), "start_after", false, false, 0),
+        l("cw20-base/AllSpenderAllowances[after-draws-to-zero]", Cw20Drawn { by_spender: true }, "all_spender_allowances", "allowances", Some("owner"), "start_after", false, false, 0),
         l("cw1-subkeys/AllAllowances[mix@before-expiry]", Cw1Allowances(ExpPattern::Mix, At::Before), "all_allowances", "allowances", Some("spender"), "start_after", false, true, 0),
         l("cw1-subkeys/AllAllowances[mix@height-expired]", Cw1Allowances(ExpPattern::Mix, At::Mid), "all_allowances", "allowances", Some("spender"), "start_after", false, true, 0),
         l("cw1-subkeys/AllAllowances[mix@all-expired]", Cw1Allowances(ExpPattern::Mix, At::After), "all_allowances", "allowances", Some("spender"), "start_after", false, true, 0),
@@ -186,9 +190,9 @@ pub struct Built {
     /// revoked allowance listed with amount 0: whatever expiry the listing shows)
     pub loose: Vec<Key>,
     /// for a store with two listings over the same data (cw20 owner / spender listing after
-    /// revocations): does the OTHER listing show entries that only the alternative reading calls
-    /// items? (None: it has no such entries to show). Both listings must follow the same reading.
-    pub sibling_follows_alt: Option<bool>,
+    /// revocations or draws to zero): does the OTHER listing show entries on which the two readings
+    /// differ (zero-amount pairs)? (None: it has none to show). Both listings must agree.
+    pub sibling_lists_optional: Option<bool>,
     /// number of point queries made to confirm the key set
     pub point_queries: u64,
     /// number of entry-point calls used to build the store
@@ -218,7 +222,7 @@ impl Built {
             filtered: alt.filtered,
             alt: None,
             loose: alt.loose,
-            sibling_follows_alt: self.sibling_follows_alt,
+            sibling_lists_optional: self.sibling_lists_optional,
             point_queries: self.point_queries,
             build_calls: self.build_calls,
         })
@@ -305,7 +309,7 @@ impl B {
             filtered: false,
             alt: None,
             loose: vec![],
-            sibling_follows_alt: None,
+            sibling_lists_optional: None,
             point_queries: self.points,
             build_calls: self.calls,
         }
@@ -355,6 +359,7 @@ impl Listing {
             Kind::Cw20Migrated { by_spender } => cw20_migrated(n, by_spender, false),
             Kind::Cw20MigratedLate { by_spender } => cw20_migrated(n, by_spender, true),
             Kind::Cw20Revoked { by_spender } => cw20_revoked(n, by_spender),
+            Kind::Cw20Drawn { by_spender } => cw20_drawn(n, by_spender),
             Kind::Cw1Allowances(p, at) => cw1_allowances(n, p, at),
             Kind::Cw1Permissions => cw1_permissions(n, false),
             Kind::Cw1PermissionsAdmins => cw1_permissions(n, true),
@@ -754,7 +759,102 @@ fn cw20_revoked(n: usize, by_spender: bool) -> Result<Built, String> {
     if !revoked.is_empty() {
         built.alt = Some(Alt { expected: with_zero, filtered: false, loose: revoked });
     }
-    built.sibling_follows_alt = sibling;
+    built.sibling_lists_optional = sibling;
+    Ok(built)
+}
+
+/// Mutual grants between a principal P and n users, then draws by the spenders (TransferFrom /
+/// BurnFrom / SendFrom in turn) that use up exactly the whole allowance for runs at the start /
+/// middle / end of the key order (different runs for the two directions), and partial draws.
+/// The unchanged code keeps a used-up pair as a zero entry (with its expiry) in both maps: first
+/// reading = every granted pair, as the Allowance point query reports it; second reading = only the
+/// pairs with a non-zero amount. Both listings of the store must follow the same one.
+fn cw20_drawn(n: usize, by_spender: bool) -> Result<Built, String> {
+    let mut b = B::new();
+    // SendFrom's receiver notification is not dispatched (no receiver contract in this world)
+    b.w.dispatch = false;
+    let c = a("contract-cw20");
+    let p = a("principal");
+    let sink = a("sink");
+    let mut init = vec![json!({"address": p, "amount": "1000000"})];
+    init.extend((0..n).map(|i| json!({"address": user(i), "amount": "10000"})));
+    cw20_instantiate(&mut b, &c, init)?;
+    let sorted = sorted_users(n);
+    let mut out_ref: Vec<u128> = (0..n).map(|i| (i + 10) as u128).collect(); // P -> u_i
+    let mut in_ref: Vec<u128> = (0..n).map(|i| (i + 50) as u128).collect(); // u_i -> P
+    for i in 0..n {
+        b.exec(&p, &c, json!({"increase_allowance": {"spender": user(i), "amount": out_ref[i].to_string(), "expires": cw20_expiry(i)}}))?;
+        b.exec(&user(i), &c, json!({"increase_allowance": {"spender": p, "amount": in_ref[i].to_string(), "expires": cw20_expiry(i + 1)}}))?;
+    }
+    let draw = |k: usize, owner: &str, amount: u128| -> Value {
+        match k % 3 {
+            0 => json!({"transfer_from": {"owner": owner, "recipient": sink, "amount": amount.to_string()}}),
+            1 => json!({"burn_from": {"owner": owner, "amount": amount.to_string()}}),
+            _ => json!({"send_from": {"owner": owner, "contract": sink, "amount": amount.to_string(), "msg": ""}}),
+        }
+    };
+    let z_out = if n == 1 { vec![0] } else { emptied_positions(n) };
+    let z_in = shifted_positions(n);
+    for (k, pos) in z_out.iter().enumerate() {
+        let (addr, i) = &sorted[*pos];
+        b.exec(addr, &c, draw(k, &p, out_ref[*i]))?;
+        out_ref[*i] = 0;
+    }
+    for (k, pos) in z_in.iter().enumerate() {
+        let (addr, i) = &sorted[*pos];
+        b.exec(&p, &c, draw(k + 1, addr, in_ref[*i]))?;
+        in_ref[*i] = 0;
+    }
+    // partial draws
+    for (pos, (addr, i)) in sorted.iter().enumerate() {
+        if pos % 7 == 3 && out_ref[*i] > 1 {
+            b.exec(addr, &c, draw(pos, &p, 1))?;
+            out_ref[*i] -= 1;
+        }
+        if pos % 7 == 5 && in_ref[*i] > 2 {
+            b.exec(&p, &c, draw(pos, addr, 2))?;
+            in_ref[*i] -= 2;
+        }
+    }
+    let who = if by_spender { "owner" } else { "spender" };
+    let mut all = vec![];
+    let mut nonzero = vec![];
+    for (addr, i) in &sorted {
+        let (q, want) = if by_spender {
+            (json!({"allowance": {"owner": addr, "spender": p}}), in_ref[*i])
+        } else {
+            (json!({"allowance": {"owner": p, "spender": addr}}), out_ref[*i])
+        };
+        let r = b.point(&c, q)?;
+        if r["allowance"] != json!(want.to_string()) {
+            return Err(machinery("allowance (0 = used up)", addr, &r));
+        }
+        let item = json!({who: addr, "allowance": r["allowance"], "expires": r["expires"]});
+        all.push((Key::S(addr.clone()), item.clone()));
+        if want != 0 {
+            nonzero.push((Key::S(addr.clone()), item));
+        }
+    }
+    let other_zero: Vec<String> = sorted
+        .iter()
+        .filter(|(_, i)| if by_spender { out_ref[*i] == 0 } else { in_ref[*i] == 0 })
+        .map(|(a, _)| a.clone())
+        .collect();
+    let sibling = if other_zero.is_empty() {
+        None
+    } else {
+        let (q, arg, key) = if by_spender { ("all_allowances", "owner", "spender") } else { ("all_spender_allowances", "spender", "owner") };
+        let listed = walk_keys(&b.w, &c, q, arg, &p, "allowances", key, n + 3)?;
+        Some(listed.iter().any(|k| other_zero.contains(k)))
+    };
+    let stored = sorted.iter().map(|(s, _)| Key::S(s.clone())).collect();
+    let args = if by_spender { args(&[("spender", json!(p))]) } else { args(&[("owner", json!(p))]) };
+    let has_zero = nonzero.len() != all.len();
+    let mut built = b.done(c, args, all, stored);
+    if has_zero {
+        built.alt = Some(Alt { expected: nonzero, filtered: false, loose: vec![] });
+    }
+    built.sibling_lists_optional = sibling;
     Ok(built)
 }
 
